@@ -1,6 +1,6 @@
 SPECIFICATION Spec
 CONSTANTS
-  Kinds = {"deep", "deep2", "flat", "miss"}
+  Kinds = {"deep", "deep2", "flat", "miss", "smiss"}
   PoolCap = 3
   MaxSteps = 7
   DEV_NoPathReset = FALSE
